@@ -96,7 +96,7 @@ def vectors(tier, seed):
         vs.append(("RESOLVE_PTR", "v6", a, 0))
         vs.append(("RESOLVE", "v6", a, 0))
     # the server's method selection: mostly 'no authentication' in one segment; every 4th vector another reply
-    sels = ["split", "m2", "m2split", "none", "badver", "m1", "split", "sync", "sync", "coalesced", "coalesced", "none_ok", "badver_ok", "m1_ok"]
+    sels = ["split", "m2", "m2split", "none", "badver", "m1", "split", "sync", "sync", "coalesced", "coalesced", "none_ok", "badver_ok", "m1_ok", "lost_ok", "losthalf_ok"]
     vs = [v + (("ok",) if i % 4 else (sels[(i // 4) % len(sels)],)) for i, v in enumerate(vs)]
     vs += tlsvs
     # host names handed over as bytes (as twisted.web's URI.host is), punycode labels included
